@@ -246,3 +246,24 @@ def fx_div(fx):
     for fid, (fn, ft) in cl.run().items():
         n += taint.check_div(c, fn, ft)
     return n == 2 and _fires(c, "div::bad_decode") and not _fires(c, "div::ok_decode")
+
+
+def fx_prune(fx):
+    from rules import prune
+    c = _ctx()
+    n = prune.run(c, fx, "src/lib.rs", "prune::Node", name_rx=r"prune::\w+_remove$")
+    return n == 2 and _fires(c, "prune::bad_remove") and not _fires(c, "prune::ok_remove")
+
+
+def fx_parallel(fx):
+    from rules import parallel
+    c = _ctx()
+    n = parallel.run(c, fx, "src/lib.rs", "par::Tab", "entries", "cache")
+    return n == 2 and _fires(c, "Tab::bad_compact") and not _fires(c, "Tab::ok_compact")
+
+
+def fx_simdsign(fx):
+    from rules import simdsign
+    c = _ctx()
+    n = simdsign.run(c, fx)
+    return n >= 2 and _fires(c, "simdsign::bad_memcmp16") and not _fires(c, "simdsign::ok_memcmp16")
